@@ -6,6 +6,8 @@ from sa import AnalysisError
 from sa.kinds import (key, utext, call_name, recv_text, calls_in, node_calls, all_stores,
                       loop_body_exits_early)
 from sa.cfg import walk_calls, walk_nodes
+from sa.astutil import canon
+from sa.astutil import canon_text as ct
 
 EXPLANATION = (
     "Structural decision of C12 for the Betfair and the simulated execution: (R1) in every response handler, "
@@ -54,7 +56,7 @@ def status_atoms(cfg, nodes):
     for n in nodes:
         if n.kind != "cond":
             continue
-        e = n.exprs[0]
+        e = canon(n.exprs[0])
         if isinstance(e, ast.Compare) and len(e.ops) == 1 and isinstance(e.ops[0], ast.Eq) \
                 and isinstance(e.comparators[0], ast.Constant) and isinstance(e.comparators[0].value, str) \
                 and isinstance(e.left, ast.Attribute) and e.left.attr in ("status", "order_status"):
@@ -96,7 +98,7 @@ def run(ctx, rep):
                 raise AnalysisError("%s: no `with order.trade` scope found" % f.qual)
             chained = [w for w in withs if any(
                 isinstance(c, ast.Compare) and isinstance(c.left, ast.Attribute) and c.left.attr == "status"
-                and isinstance(c.comparators[0], ast.Constant) for c in walk_nodes(w.body, ast.Compare))]
+                and isinstance(c.comparators[0], ast.Constant) for c in [canon(x) for x in walk_nodes(w.body, ast.Compare)])]
             if len(chained) != 1:
                 raise AnalysisError("%s: expected one per-order body with a report-status chain, found %d" % (
                     f.qual, len(chained)))
@@ -276,7 +278,7 @@ def run(ctx, rep):
     good = len(inc) == 1 and len(rets_true) == 1
     if good:
         gs = {(utext(g.exprs[0]), pol) for g, pol in cfg.guards(rets_true[0].id)}
-        good = ("self._retry_count < self._max_retries", True) in gs and cfg.dominates(inc[0].id, rets_true[0].id)
+        good = (ct("self._retry_count < self._max_retries"), True) in gs and cfg.dominates(inc[0].id, rets_true[0].id)
     rep.check(good, "R4", key(rt, None, "retry() returns True only below the limit and after counting"), rt)
     writers = [(f2, s) for f2, s, t, kind in all_stores(prog, "_retry_count")]
     rep.check(all(f2.qual in ("BaseOrderPackage.__init__", "BaseOrderPackage.retry") for f2, s in writers), "R4",
@@ -419,6 +421,7 @@ def _filter_drops(gen):
     v = utext(gen.target)
     drops = set()
     for c in gen.ifs:
+        c = canon(c)
         if isinstance(c, ast.Compare) and len(c.ops) == 1 and isinstance(c.ops[0], ast.NotEq) \
                 and utext(c.left) == "%s.status" % v and utext(c.comparators[0]).startswith("OrderStatus."):
             drops.add(utext(c.comparators[0]).split(".")[1])
